@@ -62,11 +62,11 @@ Section Obs.
   Lemma eff_print o : eff (lift (print o)) [o] false.
   Proof. intro s; split; reflexivity. Qed.
 
-  Lemma eff_emit l : eff (emit f l) [] false.
+  Lemma eff_emit l : eff (emit C f l) [] false.
   Proof.
     intro s. unfold emit, consult. rewrite app_nil_r.
     destruct (app s); try (destruct (level_geb_warning l); split; reflexivity).
-    destruct (f Emit (n s)); split; reflexivity.
+    destruct (f Emit (n s)); [destruct (c_tb C)|]; split; reflexivity.
   Qed.
 
   Lemma eff_setup : eff (setup C f) [] false.
@@ -86,14 +86,14 @@ Section Obs.
     - split; reflexivity.
     - destruct ev as [|p|].
       + destruct (eff_emit Warning s) as [_ Ho]. rewrite app_nil_r in Ho.
-        destruct (emit f Warning s) as [s1 b]; simpl in Ho. destruct (IH log full s1) as [A B].
+        destruct (emit C f Warning s) as [s1 b]; simpl in Ho. destruct (IH log full s1) as [A B].
         split; [exact A | rewrite B; exact Ho].
       + unfold consult. destruct (f Expand (n s)) as [e|] eqn:E.
         * destruct (H (n s) e) as (_ & _ & H3 & _). rewrite (H3 E).
-          destruct (eff_emit Warning (tick s)) as [_ Ho]. rewrite app_nil_r in Ho.
-          destruct (emit f Warning (tick s)) as [s2 b]; simpl in Ho. destruct (IH log full s2) as [A B].
+          destruct (eff_emit Warning (tick Expand s)) as [_ Ho]. rewrite app_nil_r in Ho.
+          destruct (emit C f Warning (tick Expand s)) as [s2 b]; simpl in Ho. destruct (IH log full s2) as [A B].
           split; [exact A | rewrite B; exact Ho].
-        * destruct (IH (Some p) full (tick s)) as [A B]. split; [exact A | rewrite B; reflexivity].
+        * destruct (IH (Some p) full (tick Expand s)) as [A B]. split; [exact A | rewrite B; reflexivity].
       + apply IH.
   Qed.
 
@@ -116,7 +116,7 @@ Section Obs.
       + split; reflexivity.
   Qed.
 
-  Lemma eff_respond m v r : eff (respond f m v r) [OEnv m v r] false.
+  Lemma eff_respond m v r : eff (respond C f m v r) [OEnv m v r] false.
   Proof. unfold respond. apply (eff_bind _ _ [] [OEnv m v r]); [apply eff_emit | apply eff_print]. Qed.
 
   Lemma eff_say msg : eff (say msg) (match msg with Some (c :: t) => [OMsg (c :: t)] | _ => [] end) false.
@@ -168,7 +168,7 @@ Section Obs.
     unfold hook_run. destruct (eff_setup init) as [Hs Ho]. destruct (setup C f init) as [s1 crashed]; simpl in Hs, Ho.
     subst crashed. destruct (eff_body i s1) as [Hr Hb]. destruct (body C f ts i s1) as [s2 raised]; simpl in Hr, Hb.
     rewrite Ho in Hb. simpl in Hb. subst raised. destruct (raising i) eqn:R.
-    - assert (E : eff (bind (emit f Error) (lift (print OEmpty))) [OEmpty] false)
+    - assert (E : eff (bind (emit C f Error) (lift (print OEmpty))) [OEmpty] false)
         by (apply (eff_bind _ _ [] _); [apply eff_emit | apply eff_print]).
       destruct (E s2) as [_ E2]. split; [|reflexivity]. unfold finish; simpl. rewrite E2, Hb, (expected_raising i R).
       reflexivity.
@@ -228,3 +228,97 @@ Lemma traceback_refuted :
   exists i f, realistic f /\ r_tracebacks (hook_run head f [] i) <> r_tracebacks (run_nolog i).
 Proof. exists a_check, emit_fails. split; [|vm_compute; discriminate].
   intros k e; repeat split; simpl; discriminate. Qed.
+
+(* with logging.raiseExceptions off (the proposed repair) nothing is ever printed by a failing handler *)
+Section Quiet.
+  Variable C : catches.
+  Variable f : faults.
+  Variable ts : str.
+  Variable HQ : c_tb C = false.
+
+  Definition tbp (a : st -> st * bool) : Prop := forall s, tbs (fst (a s)) = tbs s.
+  Lemma tbp_bind a b : tbp a -> tbp b -> tbp (bind a b).
+  Proof.
+    intros Ha Hb s. unfold bind. specialize (Ha s). destruct (a s) as [s1 r]; simpl in Ha.
+    destruct r; simpl; [exact Ha|]. rewrite Hb. exact Ha.
+  Qed.
+  Lemma tbp_ret : tbp ret. Proof. intro s; reflexivity. Qed.
+  Lemma tbp_raise : tbp raise. Proof. intro s; reflexivity. Qed.
+  Lemma tbp_print o : tbp (lift (print o)). Proof. intro s; reflexivity. Qed.
+  Lemma tbp_emit l : tbp (emit C f l).
+  Proof.
+    intro s. unfold emit, consult. destruct (app s); try (destruct (level_geb_warning l); reflexivity).
+    destruct (f Emit (n s)); [rewrite HQ|]; reflexivity.
+  Qed.
+  Lemma tbp_setup : tbp (setup C f).
+  Proof.
+    intro s. unfold setup, consult. destruct (f SetupMkdir (n s)); [reflexivity|]. simpl.
+    destruct (f SetupOpen (S (n s))); reflexivity.
+  Qed.
+  Lemma tbp_respond m v r : tbp (respond C f m v r).
+  Proof. apply tbp_bind; [apply tbp_emit | apply tbp_print]. Qed.
+  Lemma tbp_say msg : tbp (say msg).
+  Proof. destruct msg as [[|c t]|]; simpl; first [apply tbp_ret | apply tbp_print]. Qed.
+  Lemma tbp_configure log full : tbp (configure C f log full).
+  Proof.
+    intro s. unfold configure, consult. destruct log; [|reflexivity].
+    destruct (f CfgMkdir (n s)) as [e|]; [destruct (c_cfg C e)|]; reflexivity.
+  Qed.
+  Lemma tbp_log_decision d c rule cmd : tbp (log_decision C f ts d c rule cmd).
+  Proof.
+    intro s. unfold log_decision, consult. destruct (lcfg s) as [[p full]|]; [|reflexivity].
+    destruct (disabled s); [reflexivity|].
+    destruct (f DecOpen (n s)) as [e|]; [destruct (c_dec C e); reflexivity|]. simpl.
+    destruct (f DecWrite (S (n s))) as [e|]; [destruct (c_dec C e)|]; reflexivity.
+  Qed.
+  Lemma tbp_dispatch m r : tbp (dispatch C f ts m r).
+  Proof.
+    destruct r; cbn [dispatch]; repeat apply tbp_bind;
+      auto using tbp_emit, tbp_say, tbp_print, tbp_raise, tbp_log_decision, tbp_respond.
+  Qed.
+  Lemma tbp_load evs : forall log full s, tbs (fst (fst (load C f evs log full s))) = tbs s.
+  Proof.
+    induction evs as [|ev evs IH]; intros log full s; cbn [load]; [reflexivity|]. destruct ev as [|p|].
+    - pose proof (tbp_emit Warning s) as E. destruct (emit C f Warning s) as [s1 b]; simpl in E. rewrite IH. exact E.
+    - unfold consult. destruct (f Expand (n s)) as [e|].
+      + destruct (c_expand C e); [|reflexivity].
+        pose proof (tbp_emit Warning (tick Expand s)) as E. destruct (emit C f Warning (tick Expand s)) as [s1 b]; simpl in E.
+        rewrite IH. exact E.
+      + rewrite IH. reflexivity.
+    - apply IH.
+  Qed.
+  Lemma tbp_body i : tbp (body C f ts i).
+  Proof.
+    unfold body. destruct (h_json_ok i); simpl; [|apply tbp_raise]. apply tbp_bind.
+    - destruct (h_explicit i); [apply tbp_ret|]. apply tbp_bind; [|apply tbp_emit].
+      destruct (h_unknown_tool i); [apply tbp_emit | apply tbp_ret].
+    - intro s. pose proof (tbp_load (h_cfg i) None false s) as L.
+      destruct (load C f (h_cfg i) None false s) as [[s1 raised] [log full]]; simpl in L.
+      destruct raised; simpl; [exact L|]. rewrite <- L. destruct (h_cfg_error i).
+      + apply (tbp_bind _ _ (tbp_emit Error) (tbp_respond _ _ _)).
+      + apply (tbp_bind _ _ (tbp_configure log full) (tbp_dispatch _ _)).
+  Qed.
+
+  Lemma quiet_run (H : handled C f) i : r_tracebacks (hook_run C f ts i) = 0%nat.
+  Proof.
+    unfold hook_run. pose proof (tbp_setup init) as S0. destruct (eff_setup C f H init) as [R _].
+    destruct (setup C f init) as [s1 crashed]; simpl in S0, R. subst crashed.
+    pose proof (tbp_body i s1) as B. destruct (body C f ts i s1) as [s2 raised]; simpl in B.
+    destruct raised; unfold finish; simpl.
+    - pose proof (tbp_bind _ _ (tbp_emit Error) (tbp_print OEmpty) s2) as E. rewrite E, B, S0. reflexivity.
+    - rewrite B, S0. reflexivity.
+  Qed.
+End Quiet.
+
+Lemma realistic_handled_quiet f : realistic f -> handled quiet f.
+Proof. intros H k e. exact (realistic_handled f H k e). Qed.
+Lemma quiet_no_traceback f ts i : realistic f ->
+  r_tracebacks (hook_run quiet f ts i) = 0%nat /\
+  r_stdout (hook_run quiet f ts i) = r_stdout (run_nolog i) /\ r_exit (hook_run quiet f ts i) = r_exit (run_nolog i).
+Proof.
+  intro H. split; [apply quiet_run; [reflexivity | apply realistic_handled_quiet; exact H]|].
+  apply observer_gen. apply realistic_handled_quiet. exact H.
+Qed.
+
+Lemma tables_tie : catches_agree current head = true \/ catches_agree current quiet = true.
+Proof. vm_compute. first [left; reflexivity | right; reflexivity]. Qed.
